@@ -109,6 +109,8 @@ func C13(c *Ctx) {
 		"{\npackage p\n}\nA <- ('a' //{L} 'b') / Undefined\n", "{\npackage p\n}\nA <- a:'x' a:'y' { return nil, nil }\n", "{\npackage p\n}\nA <- c:'x' { return c, nil }\n",
 		"{\npackage p\n}\nA <- 'x' { this is not go }\n", "{\npackage p\n}\nA \"\" <- ''\n", "", "\n\n", "{\npackage p\n}\n", "{", "A", "A <-", "A <- 'a", "A <- [a", "A <- \"\\u12\"", "A <- 'a' //{", "A <- %{",
 		"{\npackage p\n}\nA <- B\nB <- C\nC <- D\nD <- A / 'x'\n",
+		// cycles of rules whose bodies are bare references, reachable from the first rule or not
+		"{\npackage p\n}\nA <- B\nB <- A\n", "{\npackage p\n}\nA <- 'x'\nB <- C\nC <- D\nD <- B\n", "{\npackage p\n}\nA <- B 'x' / C\nB <- C\nC <- B\n", "{\npackage p\n}\nA <- (B)\nB <- a:A\nC <- (((C)))\n",
 		"A = [\\p{Lu]]\n", "A = [\\p{Lu]\n", "A = [\\p{]\n", "A = [\\p", "A = [\\pX]\n", "A = [\\p{Nope}]\n", "A = [a-\n", "A = [\\", "A = [\\x4]\n", "A = [a\\u12]\n", "A = [^\n", "A = []]\n", "A = [\\p{Lu}\\p{\n",
 		// a literal with an error directly after a rule reference / before a rule operator (the front-end looks ahead over it)
 		"A <- B \"a\\qc\"\nB <- 'b'\n", "A <- B \"unterminated", "A <- B\nB \"bad\\q name\" <- 'b'\n", "A <- B 'x\xffy'\nB <- 'b'\n", "A <- B \"\\u12\" C\nB <- 'b'\nC <- 'c'\n", "A <- b:B [\\q]\nB <- 'b'\n",
